@@ -25,7 +25,18 @@ func (c *Ctx) Eff() *Effects {
 }
 
 // T returns the origin terms of fn.
-func (c *Ctx) T(fn *ssa.Function) *Terms { return c.W.TermsOf(fn, c.Eff()) }
+func (c *Ctx) T(fn *ssa.Function) *Terms {
+	if touchLog != nil && c.rule != nil {
+		if touchLog[fn] == nil {
+			touchLog[fn] = map[string]bool{}
+		}
+		touchLog[fn][c.rule.ID] = true
+	}
+	return c.W.TermsOf(fn, c.Eff())
+}
+
+// touchLog (diagnostic, PSLINT_TOUCH=1): which rules looked at the terms of which function.
+var touchLog map[*ssa.Function]map[string]bool
 
 // PC returns the path conditions of fn.
 func (c *Ctx) PC(fn *ssa.Function) *PathConds {
